@@ -206,6 +206,15 @@ theorem C14_walk_depth (c : SsaBuild.PCfg) (P : SsaBuild.Phis) (idom : Nat → N
     (hlt : ∀ j, 0 < j → j < c.blocks.length → idom j < j) : SsaWalk.run c P idom ≠ .fuel :=
   SsaWalk.run_nofuel c P idom hlt
 
+/-- the stack of scopes behind `scoped_versions`: leaving a scope restores every lookup, so a child of the dominator tree starts
+    from the version map at the end of its parent whatever its elder siblings did (this is what `SsaWalk.walk` models by handing
+    the map down); and an addition to a non-empty stack is a map update -/
+theorem C14_scope_restores {f : SsaWalk.Frames → SsaWalk.Frames} (h : SsaWalk.ScopeOps f) (fs : SsaWalk.Frames) :
+    (f fs.push).pop = fs := SsaWalk.scope_restores h fs
+
+theorem C14_scoped_add (fs : SsaWalk.Frames) (hne : fs ≠ []) (v : Var) (n : Nat) :
+    (fs.add v n).get = VMap.set fs.get v n := SsaWalk.frames_get_add fs hne v n
+
 /-- non-vacuity of the walk theorems: `x = 1; while (..) { x = x + 1 }; use x` — the walk converts it, numbering the
     definitions 0 (entry), 1 (phi), 2 (loop body) -/
 def exP : SsaBuild.PCfg :=
